@@ -37,6 +37,16 @@ fn main() {
     for line in text.lines() {
         let l = line.trim();
         if l.is_empty() { continue; }
+        // directives: `--@RELOAD binary|json` saves the database to a scratch file and loads it back
+        if l.starts_with("--@RELOAD") {
+            println!("{}", l);
+            let json = l.contains("json");
+            let f = std::env::temp_dir().join(format!("runner_reload_{}.{}", std::process::id(), if json { "json" } else { "vbsql" }));
+            let r = if json { db.save_json(&f).and_then(|_| Database::load_json(&f)) } else { db.save_uncompressed(&f).and_then(|_| Database::load_binary(&f)) };
+            let _ = std::fs::remove_file(&f);
+            match r { Ok(d) => { db = d; println!("  -> reloaded"); } Err(e) => println!("  ERROR {:?}", e) }
+            continue;
+        }
         if l.starts_with("--") { println!("{}", l); continue; }
         println!("{}", l);
         let res = std::panic::catch_unwind(std::panic::AssertUnwindSafe(|| run(&mut db, l.trim_end_matches(';'))));
